@@ -39,7 +39,9 @@ FAMILIES = {
                                                    "thorough": dict(depth=1, consts={"FaultSet": '"pairs"', "GenSet": '"clean"'})}),
               ("Gen_Fault", "Gen_Fault.cfg", "bfs", {"quick": dict(depth=1, consts={"FaultSet": '"single"', "GenSet": '"dust"'}),
                                                    "thorough": dict(depth=1, consts={"FaultSet": '"pairs"', "GenSet": '"dust"'})})],
-        replays=[dict(mode="instr", controls="", swap=False)]),
+        # second wiring: an injected failure comes WITH a non-nil zero response, as real Go servers may return
+        # (noble-cctp's message server ends with `return &Response{...}, err`)
+        replays=[dict(mode="instr", controls="", swap=False), dict(mode="instr", tag="instr-resp", controls="", swap=False, extra=["-faultresp"])]),
     "ORDER": dict(
         mc=("MC_Order", "MC_Order.cfg", {"quick": {"MaxDepth": "1"}, "thorough": {"MaxDepth": "2"}}),
         gens=[("Gen_Order", "Gen_Order.cfg", "bfs", {"quick": dict(depth=1, consts={}), "thorough": dict(depth=1, consts={})}),
@@ -115,6 +117,16 @@ FAMILIES = {
               ("Gen_Discard", "Gen_Discard.cfg", "sim", {"quick": dict(num=100, depth=8, consts={}, seeds=1),
                                                       "thorough": dict(num=1500, depth=12, consts={}, seeds=2)})],
         replays=[dict(mode="app", controls="", swap=False)]),
+    "TOUR": dict(      # state tour: every state of the COMPLETE pause-state graph, reached by its shortest history, then every probe
+        mc=("MC_Pause", "MC_Pause.cfg", {"quick": {"PauseSet": '"small"'}, "thorough": {"PauseSet": '"small"'}}),
+        gens=[("Gen_Pause", "Gen_Pause.cfg", "tour", {"quick": dict(sample=8, consts={"GenSet": '"full"', "PauseSet": '"small"', "TourMode": '"states"'}),
+                                                    "thorough": dict(sample=1, consts={"GenSet": '"full"', "PauseSet": '"small"', "TourMode": '"states"'})})],
+        replays=[dict(mode="app", controls="nopause,nopt", swap=False)]),
+    "TOUREDGE": dict(  # transition tour: every transition of the COMPLETE pause-state graph (shortest history + the input)
+        mc=("MC_Pause", "MC_Pause.cfg", {"quick": {"PauseSet": '"small"'}, "thorough": {"PauseSet": '"small"'}}),
+        gens=[("Gen_Pause", "Gen_Pause.cfg", "tour", {"quick": dict(sample=200, consts={"GenSet": '"full"', "PauseSet": '"small"', "TourMode": '"edges"'}),
+                                                    "thorough": dict(sample=1, consts={"GenSet": '"full"', "PauseSet": '"small"', "TourMode": '"edges"'})})],
+        replays=[dict(mode="app", controls="nopause,nopt", swap=False)]),
     "RPCS": dict(      # every Msg RPC registered by the module (from the service descriptors) x every signer class
         mc=("MC_Pause", "MC_Pause.cfg", {"quick": {"PauseSet": '"small"'}, "thorough": {"PauseSet": '"small"'}}),
         gens=[("rpcs", None, "harness", {"quick": {}, "thorough": {}})],
@@ -174,13 +186,13 @@ PROPS = {
                 rule="every grid point (amount x fee-entry list) is one packet through the real application; non-trivial = the payload carries a fee action that parses; distinct = distinct abstract input"),
     "C05": dict(families=["REQ"], groups=["ack", "req"], level="model_checking", exhaustive=True,
                 rule="every grid point (protocol id x attribute type x attribute values x pre-action) is one packet, executed once with recording wrappers around the real bridge servers and once through the simapp wiring; non-trivial = a successful transfer (request compared) or a mismatched/unrouted payload (must be refused); distinct = distinct abstract input x wiring"),
-    "C08": dict(families=["PAUSE", "BATCH", "DISCARD", "GENESIS"], groups=["ack", "pause"], level="model_checking",
+    "C08": dict(families=["PAUSE", "TOUR", "TOUREDGE", "BATCH", "DISCARD", "GENESIS"], groups=["ack", "pause"], level="model_checking",
                 rule="non-trivial = a transfer with a parseable payload received while some protocol/destination is paused, or a pause/unpause message; distinct = distinct (pre-state, input)"),
-    "C09": dict(families=["PAUSE", "DISCARD", "GENESIS"], groups=["ack", "pause"], level="model_checking",
+    "C09": dict(families=["PAUSE", "TOUR", "DISCARD", "GENESIS"], groups=["ack", "pause"], level="model_checking",
                 rule="non-trivial = a transfer with a parseable payload received while some action is paused, or a pause/unpause-action message; distinct = distinct (pre-state, input)"),
     "C10": dict(families=["PAUSE", "AUTHMOD", "RPCS"], groups=["ack", "pause", "params", "stats", "bal"], level="model_checking",
                 rule="non-trivial = any authority message (every RPC x signer class x body class); distinct = distinct (pre-state, input)"),
-    "C18": dict(families=["PAUSE", "DUST", "DISCARD", "GENESIS"], groups=["ack", "params"], level="model_checking",
+    "C18": dict(families=["PAUSE", "TOUR", "DUST", "DISCARD", "GENESIS"], groups=["ack", "params"], level="model_checking",
                 rule="non-trivial = a transfer with a non-empty passthrough payload, or an UpdateParams message; distinct = distinct (pre-state, input)"),
 }
 
@@ -244,6 +256,19 @@ def run_family(fam, tier, seed, wd, specdir, report):
                         h = [x for x in h for _ in (0, 1)]
                     behs.append({"b": "%s-bfs%d-%d-%d" % (fam, gi, si, j), "steps": h})
             log("generated %d exhaustive histories of length %d (%s) in %.0fs" % (len(behs) - n0, t["depth"], gmod, max(r[1] for r in res)))
+        elif gmode == "tour":
+            hs, dt = generate(specdir, gmod, gcfg, dict(t["consts"]), "tour", 0, 0, 0, timeout=3600, workers=nw)
+            # the tour is complete in the thorough tier; the quick tier replays every k-th history of it
+            # (canonical order, residue class rotated by VERIF_SEED) - stated in the evidence
+            k = t.get("sample", 1)
+            hs = sorted(hs, key=lambda h: json.dumps(h, sort_keys=True))
+            kept = [h for j, h in enumerate(hs) if j % k == seed % k]
+            for j, h in enumerate(kept):
+                behs.append({"b": "%s-tour%d-%d" % (fam, gi, j), "steps": h})
+            report.setdefault("tours", []).append(dict(family=fam, mode=t["consts"]["TourMode"].strip('"'), histories_in_complete_tour=len(hs),
+                                                       replayed=len(kept), sample_every=k))
+            log("generated a %s tour of the complete state graph: %d histories, replaying %d (every %d%s), %d steps (%s) in %.0fs" % (
+                t["consts"]["TourMode"].strip('"'), len(hs), len(kept), k, "th" if k > 1 else "", sum(len(h) for h in kept), gmod, dt))
         else:
             for s in range(t.get("seeds", 1)):
                 sd = seed * 1000 + s + 1
@@ -255,12 +280,13 @@ def run_family(fam, tier, seed, wd, specdir, report):
     replays = F.get("replays") or [dict(mode=F["mode"], controls=F["controls"], swap=F["swap"])]
     all_recs, all_evs, by_id = [], [], {}
     for ri, R in enumerate(replays):
-        tagged = [{"b": "%s@%s" % (b["b"], R["mode"]), "steps": b["steps"]} for b in behs]
-        trace, dt = replay(tagged, wd, "%s-%s" % (fam, R["mode"]), mode=R["mode"], controls=R["controls"], extra=R.get("extra"))
-        log("replayed %d behaviours in the real code (%s mode) in %.0fs" % (len(tagged), R["mode"], dt))
+        rtag = R.get("tag", R["mode"])
+        tagged = [{"b": "%s@%s" % (b["b"], rtag), "steps": b["steps"]} for b in behs]
+        trace, dt = replay(tagged, wd, "%s-%s" % (fam, rtag), mode=R["mode"], controls=R["controls"], extra=R.get("extra"))
+        log("replayed %d behaviours in the real code (%s mode%s) in %.0fs" % (len(tagged), R["mode"], " " + " ".join(R["extra"]) if R.get("extra") else "", dt))
         nrep = (R.get("repeat") or {}).get(tier, 1)
         if nrep > 1:
-            attach_peers(trace, tagged, wd, "%s-%s" % (fam, R["mode"]), R, nrep)
+            attach_peers(trace, tagged, wd, "%s-%s" % (fam, rtag), R, nrep)
         recs, evs, dt = validate(specdir, trace, R.get("swap", False))
         log("validated %d observed steps against the specification in %.0fs" % (len(recs), dt))
         off = len(all_evs)
@@ -517,7 +543,7 @@ def check(prop, tier):
             states=sum(m["states"] for m in report["mc"]), transitions=sum(m["transitions"] for m in report["mc"]),
             traces_validated_against_impl=report["traces_validated"], samples=samples,
             evaluations=report["evaluations"], distinct_nontrivial=nontriv, rule=P["rule"],
-            model_checking=report["mc"], families=report["families"],
+            model_checking=report["mc"], families=report["families"], tours=report.get("tours", []),
             spec_branches_reached=sorted(report.get("branches", [])),
             spec_divergences=report.get("divergences", {}), known_findings=report.get("known_findings", {}),
             symbolic_lemmas=symbolic,
